@@ -20,6 +20,7 @@ import (
 	"os"
 	"os/exec"
 	"reflect"
+	"runtime/pprof"
 	"slices"
 	"sort"
 	"strings"
@@ -1054,6 +1055,11 @@ func child(t *testing.T) {
 		}
 	}
 	only := os.Getenv("AMC_C20_ONLY")
+	onlyID := os.Getenv("AMC_C20_ONLYID")
+	wdLimit := 6 * time.Second
+	if onlyID != "" {
+		wdLimit = 20 * time.Second // confirmation run of a single case
+	}
 	shard, nshard := kit.Shard()
 	for ti, tg := range targets() {
 		if ti%nshard != shard {
@@ -1075,11 +1081,15 @@ func child(t *testing.T) {
 				if done[id] {
 					continue
 				}
+				if onlyID != "" && id != onlyID {
+					continue
+				}
 				emit("S", id)
 				// real-time watchdog: a block on a real (non-bubble) lock never
 				// lets fake time advance
-				wd := time.AfterFunc(6*time.Second, func() {
+				wd := time.AfterFunc(wdLimit, func() {
 					fmt.Println("WATCHDOG: case blocked in real time:", id)
+					pprof.Lookup("goroutine").WriteTo(os.Stdout, 2)
 					os.Exit(3)
 				})
 				res, _ := oneCall(t, tg.name, ph, tg.get, ci)
@@ -1111,6 +1121,7 @@ func supervise(t *testing.T, rep *kit.Report) {
 	os.Remove(logp)
 	os.Remove(donep)
 	unsupported := map[string]bool{}
+	var irreproducible []string
 	for attempt := 0; attempt < 40; attempt++ {
 		cmd := exec.Command(os.Args[0], "-test.run", "^TestCheck$", "-test.timeout", "0")
 		cmd.Env = append(os.Environ(), "AMC_C20_CHILD=1", "AMC_C20_LOG="+logp, "AMC_C20_DONE="+donep, "AMC_OUT=")
@@ -1197,7 +1208,36 @@ func supervise(t *testing.T, rep *kit.Report) {
 		if strings.HasPrefix(why, "blocked") {
 			kind = "blocked"
 		}
-		rep.Violate("c20:"+kind+":"+fn+"@"+ph, fmt.Sprintf("%s: %s", open, why), map[string]any{"part": "totality", "case": fn})
+		confirmed := true
+		if kind == "blocked" {
+			// the 6 s real-time watchdog is a wall-clock verdict: believe it only
+			// if the same case, alone in a fresh process with a 20 s watchdog,
+			// blocks again (a real-lock deadlock of a sequential call does so
+			// every time); otherwise count it
+			confirmed = false
+			for i := 0; i < 3 && !confirmed; i++ {
+				cl := fmt.Sprintf("%s/c20-confirm-%d.jsonl", work, shard)
+				os.Remove(cl)
+				cc := exec.Command(os.Args[0], "-test.run", "^TestCheck$", "-test.timeout", "0")
+				cc.Env = append(os.Environ(), "AMC_C20_CHILD=1", "AMC_C20_LOG="+cl, "AMC_C20_DONE="+cl+".none",
+					"AMC_C20_ONLY="+fn, "AMC_C20_ONLYID="+open, "AMC_OUT=")
+				o2, _ := cc.CombinedOutput()
+				os.Remove(cl)
+				if strings.Contains(string(o2), "WATCHDOG: case blocked in real time") {
+					confirmed = true
+					out = o2
+				}
+			}
+			if !confirmed {
+				rep.Add("irreproducible", 1)
+				irreproducible = append(irreproducible, open)
+			} else if i := strings.Index(string(out), "WATCHDOG:"); i >= 0 {
+				why += "\n" + tail(string(out)[i:], 6000)
+			}
+		}
+		if confirmed {
+			rep.Violate("c20:"+kind+":"+fn+"@"+ph, fmt.Sprintf("%s: %s", open, why), map[string]any{"part": "totality", "case": fn})
+		}
 		df, _ := os.OpenFile(donep, os.O_APPEND|os.O_CREATE|os.O_WRONLY, 0o644)
 		for _, id := range finished {
 			df.WriteString(id + "\n")
@@ -1212,6 +1252,7 @@ func supervise(t *testing.T, rep *kit.Report) {
 	}
 	sort.Strings(us)
 	rep.Note("unsupported_parameter_types", us)
+	rep.Note("watchdog_hits_not_reproduced", irreproducible)
 	rep.Add("states", 1)
 }
 
